@@ -115,6 +115,9 @@ func (w *Writer) Close() error {
 	return os.WriteFile(w.path+".idx.json", b, 0o644)
 }
 
+// SetBase sets the id of the next trace (shards of one run use disjoint id ranges).
+func (w *Writer) SetBase(n int) { w.mu.Lock(); w.next = n; w.mu.Unlock() }
+
 func (w *Writer) Count() int { w.mu.Lock(); defer w.mu.Unlock(); return len(w.Infos) }
 
 // ReadScenarios reads an ndjson file of scenarios into raw JSON messages, dropping duplicates.
